@@ -21,5 +21,8 @@ def run(ctx):
     # real clock, pre-1.23 timer semantics (what the library's own go.mod selects): a sleep cancelled right when its timer
     # fires, followed at once by another sleep - nil only after at least d (lower bounds are sound on a real clock)
     rt_tv(ctx, "sleep", "xtime", "Trace_XTime", "tv.cfg", "sleep asynctimerchan=1", ctx.pick(400, 4000), confirm=False)
+    # JitterTickers on the real clock under load (callbacks run late now and then): the spacing of the timestamps the ticker
+    # sends is exact on any clock
+    rt_tv(ctx, "ticker", "xtime", "Trace_XTime", "tv.cfg", "ticker real clock", ctx.pick(12, 48), confirm=False)
     ctx.assumptions += ["a deadline that has already passed counts as 'closer than d' (DeadlineTooSoonError or the context's error are both accepted)",
                         "bubbles use Go >= 1.23 timer semantics; the pre-1.23 semantics are covered by the real-clock lane for the lower bound only"]
